@@ -189,10 +189,15 @@ Proof.
       * apply (ack_meaning_start s s1 s2 a L1). apply Hacks2. exact Ha.
 Qed.
 
+Definition is_regain (x : lstep) : bool := match x with LRegain _ _ _ => true | _ => false end.
+
 Theorem step_acks s x s' out : QInv s -> step s x = (s', out) ->
-  QInv s' /\ (exists st, l_log s' = l_log s ++ st) /\ forall a, In a out -> ack_meaning s s' a.
+  QInv s' /\ (is_regain x = false -> exists st, l_log s' = l_log s ++ st) /\ forall a, In a out -> ack_meaning s s' a.
 Proof.
-  intros HQ H. destruct x as [ms|r o|r|r]; cbn [step] in H.
+  intros HQ H. destruct x as [ms|r o|r|r|keep foreign hw]; cbn [step] in H; cbn [is_regain];
+    [| | | |injection H as <- <-; split; [intros a []|split; [discriminate|intros a []]]];
+    cut (QInv s' /\ (exists st, l_log s' = l_log s ++ st) /\ forall a, In a out -> ack_meaning s s' a);
+    try (intros (C1 & C2 & C3); split; [exact C1|split; [intros _; exact C2|exact C3]]).
   - set (good := filter (fun m => negb (pm_too_large m)) ms) in *. destruct (l_cc s).
     + destruct (store_each s good) as [s1 acks] eqn:Es. injection H as <- <-.
       destruct (store_each_spec good s s1 acks HQ Es) as (HQ1 & _ & (st & Hst & _) & Hacks). split; [exact HQ1|]. split; [exists st; exact Hst|].
@@ -251,10 +256,30 @@ Proof.
 Qed.
 
 (* what is stored stays stored: later steps only append *)
-Theorem log_only_grows xs : forall s s' acks, QInv s -> run s xs = (s', acks) -> exists st, l_log s' = l_log s ++ st.
+Theorem log_only_grows xs : forall s s' acks, QInv s -> forallb (fun x => negb (is_regain x)) xs = true ->
+  run s xs = (s', acks) -> exists st, l_log s' = l_log s ++ st.
 Proof.
-  induction xs as [|x r IH]; intros s s' acks HQ H; cbn [run] in H; [injection H as <- <-; exists []; rewrite app_nil_r; reflexivity|].
+  induction xs as [|x r IH]; intros s s' acks HQ Hn H; cbn [run] in H; [injection H as <- <-; exists []; rewrite app_nil_r; reflexivity|].
+  cbn [forallb] in Hn. apply andb_prop in Hn. destruct Hn as [Hx Hr].
   destruct (step s x) as [s1 a1] eqn:E1. destruct (run s1 r) as [s2 a2] eqn:E2. injection H as <- <-.
-  destruct (step_acks s x s1 a1 HQ E1) as (HQ1 & (st1 & H1) & _). destruct (IH s1 s2 a2 HQ1 E2) as (st2 & H2).
+  destruct (step_acks s x s1 a1 HQ E1) as (HQ1 & H1 & _). destruct H1 as (st1 & H1); [destruct (is_regain x); [discriminate|reflexivity]|].
+  destruct (IH s1 s2 a2 HQ1 Hr E2) as (st2 & H2).
   exists (st1 ++ st2). rewrite H2, H1, app_assoc. reflexivity.
 Qed.
+
+(* a new leader term: nothing is acknowledged by the change itself, no ack stays pending, and what
+   was committed (at or below the HW) is still there when the log was cut back no further than that *)
+Lemma nth_error_firstn_lt {A} (n : nat) : forall (l : list A) i, (i < n)%nat -> nth_error (firstn n l) i = nth_error l i.
+Proof.
+  induction n as [|n IH]; intros l i Hi; [lia|]. destruct l as [|y t]; [reflexivity|]. destruct i as [|i]; [reflexivity|]. cbn [firstn nth_error]. apply IH. lia.
+Qed.
+
+Theorem regain_keeps_committed s keep foreign hw s' out : step s (LRegain keep foreign hw) = (s', out) ->
+  out = [] /\ l_queue s' = [] /\ l_hw s <= l_hw s' /\
+  (l_hw s <= keep -> forall i m, Z.of_nat i <= l_hw s -> nth_error (l_log s) i = Some m -> nth_error (l_log s') i = Some m).
+Proof.
+  cbn [step]. intros [= <- <-]. cbn [l_queue l_hw l_log]. split; [reflexivity|]. split; [reflexivity|]. split; [lia|].
+  intros Hk i m Hi Hm. assert (Hlt : (i < length (l_log s))%nat) by (apply nth_error_Some; congruence).
+  rewrite nth_error_app1 by (rewrite firstn_length; lia). rewrite nth_error_firstn_lt by lia. exact Hm.
+Qed.
+
